@@ -17,7 +17,7 @@ pub const SCHEMA_SRC: &str = r#"
 entity Group in [Group];
 entity User in [Group] = { level: Long, active: Bool, manager?: User, friends: Set<User>, home?: Folder };
 entity Folder in [Folder] = { admin?: User, depth: Long };
-entity Doc in [Folder] = { owner: User, readers: Set<User>, parent?: Doc, public: Bool } tags String;
+entity Doc in [Folder] = { owner: User, readers: Set<User>, parent?: Doc, public: Bool, team?: Group } tags String;
 action view, edit appliesTo { principal: [User], resource: [Doc], context: { via?: User, n: Long, docs?: Set<Doc> } };
 action browse appliesTo { principal: [User], resource: [Folder], context: { via?: User, n: Long, docs?: Set<Doc> } };
 "#;
@@ -68,6 +68,22 @@ pub const SHAPES: &[&str] = &[
     r#"forbid(principal, action in [Action::"view", Action::"edit"], resource) when { resource has parent && resource.parent has parent && resource.parent.parent has parent };"#,
     r#"permit(principal, action, resource) when { context has via && context.via has home && context.via.home has admin };"#,
     r#"permit(principal, action, resource) when { Doc::"{D}".hasTag("k") || Folder::"{F}" has admin };"#,
+    // membership in a group that is itself reached through an attribute (resolved in a later round)
+    r#"permit(principal, action in [Action::"view", Action::"edit"], resource) when { resource has team && principal in resource.team };"#,
+    r#"forbid(principal, action in [Action::"view", Action::"edit"], resource) when { resource has team && resource.owner in resource.team };"#,
+    r#"permit(principal, action in [Action::"view", Action::"edit"], resource) when { resource has parent && resource.parent has team && principal in [resource.parent.team, Group::"{G}"] };"#,
+    // an error-capable operand (attribute of an entity that may have no record) next to operands
+    // that are already decided: the error must survive every simplification
+    r#"forbid(principal, action in [Action::"view", Action::"edit"], resource) when { resource.owner.active || context.n > -1 };"#,
+    r#"permit(principal, action in [Action::"view", Action::"edit"], resource) when { if resource.owner.active then context.n > -1 else context.n > -1 };"#,
+    r#"forbid(principal, action, resource) when { if User::"{U}".active then context.n > -1 else context.n >= 0 };"#,
+    r#"permit(principal, action, resource) when { principal.active || context.n > -1 };"#,
+    r#"permit(principal, action in [Action::"view", Action::"edit"], resource) when { [resource.owner.level, 1].contains(1) };"#,
+    r#"permit(principal, action in [Action::"view", Action::"edit"], resource) when { context.n > -1 || resource.owner.active };"#,
+    r#"permit(principal, action in [Action::"view", Action::"edit"], resource) when { !(resource.owner.active && context.n < 0) };"#,
+    r#"forbid(principal, action in [Action::"view", Action::"edit"], resource) when { (resource.owner.level > 100 || context.n > -1) && (User::"{U}".level < 100 || context.n > -1) };"#,
+    r#"permit(principal, action in [Action::"view", Action::"edit"], resource) when { resource.owner == resource.owner && (if context.n > 100 then resource.owner.active else true) };"#,
+    r#"permit(principal, action, resource) when { context has via && (context.via.active || context.n > -1) };"#,
 ];
 
 /// shapes from this index on are deep attribute chains; the generator favours them
@@ -213,8 +229,10 @@ impl EntityLoader for SimLoader<'_> {
             "redeliver" => {
                 let prev: Vec<String> = self.delivered.iter().cloned().collect();
                 if !prev.is_empty() {
-                    for _ in 0..rng.range(1, 2) {
-                        let s = rng.pick(&prev);
+                    // sometimes the service sends everything it has sent before once more
+                    let k = if rng.pct(40) { prev.len() } else { rng.range(1, 2) };
+                    for j in 0..k {
+                        let s = if k == prev.len() { &prev[j] } else { rng.pick(&prev) };
                         if let Ok(u) = EntityUid::from_str(s) {
                             if !reply.iter().any(|(x, _)| x == &u) {
                                 let e = self.store.get(&u).cloned();
@@ -574,6 +592,9 @@ pub fn gen_store_ids(rng: &mut Rng) -> (Vec<Value>, StoreIds) {
         if rng.pct(60) {
             attrs.insert("parent".into(), uid_json("Doc", pk(&mut *rng, &docs)));
         }
+        if rng.pct(60) {
+            attrs.insert("team".into(), uid_json("Group", pk(&mut *rng, &groups)));
+        }
         let mut ps = vec![];
         for f in &folders {
             if rng.pct(35) {
@@ -598,12 +619,34 @@ fn gen_case(seed: u64) -> Case {
     let mut rng = Rng::sub(seed, "workload");
     let mut hs = Rng::sub(seed, "hashkeys");
     let mut fs = Rng::sub(seed, "faults");
-    let (ents, ids) = gen_store_ids(&mut rng);
+    let (mut ents, ids) = gen_store_ids(&mut rng);
     let StoreIds { users, groups, docs, folders } = ids;
+    // swarm: "membership" scenarios have a chain of groups, users only in the lowest one, documents
+    // whose team is a higher one, and policies that test membership
+    let membership = rng.pct(20);
+    if membership {
+        for e in ents.iter_mut() {
+            let ty = e["uid"]["type"].as_str().unwrap_or("").to_string();
+            let id = e["uid"]["id"].as_str().unwrap_or("").to_string();
+            match ty.as_str() {
+                "Group" => {
+                    let k = groups.iter().position(|g| *g == id).unwrap_or(0);
+                    e["parents"] = if k + 1 < groups.len() { json!([{"type": "Group", "id": groups[k + 1]}]) } else { json!([]) };
+                }
+                "User" => e["parents"] = json!([{"type": "Group", "id": groups[0]}]),
+                "Doc" => {
+                    let g = &groups[rng.range(groups.len() / 2, groups.len() - 1)];
+                    e["attrs"]["team"] = uid_json("Group", g);
+                }
+                _ => {}
+            }
+        }
+    }
+    const MEMBERSHIP_SHAPES: [usize; 6] = [5, 24, 27, 44, 45, 46];
     let np = rng.range(1, 6);
     let mut policies = vec![];
     for _ in 0..np {
-        let s = if rng.pct(35) { SHAPES[rng.range(DEEP_FROM, SHAPES.len() - 1)] } else { *rng.pick(SHAPES) };
+        let s = if membership && rng.pct(70) { SHAPES[*rng.pick(&MEMBERSHIP_SHAPES)] } else if rng.pct(35) { SHAPES[rng.range(DEEP_FROM, SHAPES.len() - 1)] } else { *rng.pick(SHAPES) };
         let p = s
             .replace("{U2}", pk(&mut rng, &users))
             .replace("{U}", pk(&mut rng, &users))
@@ -653,8 +696,8 @@ impl World for Batched {
     }
     fn runs(&self, tier: Tier) -> u64 {
         match tier {
-            Tier::Quick => 30_000,
-            Tier::Thorough => 600_000,
+            Tier::Quick => 50_000,
+            Tier::Thorough => 1_000_000,
         }
     }
     fn generate(&self, seed: u64, _tier: Tier) -> Case {
@@ -720,7 +763,7 @@ impl World for Batched {
         for (i, e) in case.entities.iter().enumerate() {
             if let Some(Value::Object(attrs)) = e.get("attrs") {
                 for k in attrs.keys() {
-                    if matches!(k.as_str(), "manager" | "home" | "admin" | "parent") {
+                    if matches!(k.as_str(), "manager" | "home" | "admin" | "parent" | "team") {
                         let mut es = case.entities.clone();
                         if let Some(Value::Object(a)) = es[i].get_mut("attrs") {
                             a.remove(k);
@@ -765,7 +808,7 @@ impl World for Batched {
         out
     }
     fn rule(&self) -> &'static str {
-        "cases = seeded scenarios (1-6 policies instantiated from 44 shapes and accepted by the real strict validator; stores of <=14 entities accepted by schema-based from_json; requests accepted by Request::new with schema; referenced-but-absent entities frequent) x a seeded delivery-fault plan for the simulated entity-store service x every budget 0..=n+1; evaluations = individual is_authorized_batched calls compared with Authorizer::is_authorized over the same store; non-trivial = scenario that needs >=2 loader rounds at full budget; distinct by hash of (policies, store, request, loader seed)"
+        "cases = seeded scenarios (1-6 policies instantiated from 57 shapes and accepted by the real strict validator; stores of <=14 entities accepted by schema-based from_json; requests accepted by Request::new with schema; referenced-but-absent entities frequent) x a seeded delivery-fault plan for the simulated entity-store service x every budget 0..=n+1; evaluations = individual is_authorized_batched calls compared with Authorizer::is_authorized over the same store; non-trivial = scenario that needs >=2 loader rounds at full budget; distinct by hash of (policies, store, request, loader seed)"
     }
     fn real_components(&self) -> Vec<&'static str> {
         vec!["PolicySet::is_authorized_batched (batched_evaluator loop, TPE evaluator, residuals, tpe::Response)", "Authorizer::is_authorized (reference)", "Validator (strict) / Entities::from_json_value(schema) / Request::new(schema) as precondition checks"]
